@@ -78,10 +78,22 @@ let () =
   iter_lines (fun line ->
     match split_ws line with
     | ["D"; al; setup; path] ->
-      let fs0 = [(List.filteri (fun i _ -> i < 1) base_loc, KDir); (base_loc, KDir); (cwd, KDir)] @
-                (if setup = "-" then [] else
-                   List.map (fun e -> (loc_of_rel (String.sub e 2 (String.length e - 2)),
-                                       if e.[0] = 'd' then KDir else KFile)) (String.split_on_char ',' setup)) in
+      (* symbolic links are not in the proved abstract file system: for the observable part of such cases a link
+         to an existing directory counts as a directory, any other link (to a file, dangling) as a file *)
+      let entries = if setup = "-" then [] else String.split_on_char ',' setup in
+      let has_links = List.exists (fun e -> e.[0] = 'l') entries in
+      let plain = List.filter_map (fun e -> if e.[0] = 'l' then None else
+          Some (loc_of_rel (String.sub e 2 (String.length e - 2)), if e.[0] = 'd' then KDir else KFile)) entries in
+      let links = List.fold_left (fun acc e -> if e.[0] <> 'l' then acc else
+          match String.split_on_char '=' (String.sub e 2 (String.length e - 2)) with
+          | [rel; target] ->
+            let l = loc_of_rel rel in
+            let parent = List.filteri (fun i _ -> i < List.length l - 1) l in
+            let tl = parent @ [zs target] in
+            let k = (match List.assoc_opt tl (plain @ acc) with Some KDir -> KDir | _ -> KFile) in
+            acc @ [(l, k)]
+          | _ -> acc) [] entries in
+      let fs0 = [(List.filteri (fun i _ -> i < 1) base_loc, KDir); (base_loc, KDir); (cwd, KDir)] @ plain @ links in
       let p = if path = "~" then [] else if path.[0] = '@' then zs ("/tmp/S/w" ^ String.sub path 1 (String.length path - 1))
         else zs path in
       let alloc_ok = (al = "1") in
@@ -92,11 +104,12 @@ let () =
           | FsModel.EvStat (q, t) -> Printf.sprintf "stat:%s:%s" (show_path q) (type_name t)
           | FsModel.EvMkdir (q, rc) -> Printf.sprintf "mkdir:%s:%d" (show_path q) (int_of_z rc)) tr) in
       Printf.printf "M st= %s isdir= %d again= %s same= %d fds= 0 leak= 0 || %s tree=%s\n" (status_name st)
-        (if isdir then 1 else 0) (status_name again) (if tree fs1 = tree fs2 then 1 else 0) trace (tree fs1);
+        (if isdir then 1 else 0) (status_name again) (if tree fs1 = tree fs2 then 1 else 0)
+        (if has_links then "symlinks" else trace) (if has_links then "-" else tree fs1);
       (* spec: mkdir -p over the components *)
       let (r, _) = mkdirs_spec fs0 cwd p in
       let (s_st, s_dir) =
-        if not alloc_ok then ("*", "*")
+        if not alloc_ok || has_links then ("*", "*")
         else if p = [] then ("*", "0")
         else match r with MkOk _ -> ("SUCCESS", "1") | MkBlocked -> ("*", "0") in
       Printf.printf "S st= %s isdir= %s again= * same= * fds= 0 leak= 0\n" s_st s_dir
